@@ -101,6 +101,56 @@ fn chk_hilbert_point(z: u8, x: u64, y: u64) -> Result<(), String> {
         Err(_) => Err(format!("zxy({id}) failed")),
     }
 }
+/// a sequence of conversions on one thread, calls outside the functions' domains in between: every in-domain answer
+/// must be the specification's whatever was asked before (memo entries, cached zoom levels, ...)
+fn chk_hseq(seed: u64, len: usize) -> Result<(), String> {
+    let mut rng = Rng::new(seed);
+    let mut prev: Option<(u8, u64, u64)> = None;
+    for k in 0..len {
+        let z = match rng.below(4) {
+            0 => 28 + rng.below(4) as u8,
+            1 => rng.below(32) as u8,
+            _ => prev.map_or(31, |p| p.0),
+        };
+        let m = if z == 0 { 0 } else { (1u64 << z) - 1 };
+        // related coordinates: the previous point with high / low bits flipped, swapped, or a fresh one
+        let (x, y) = match (prev, rng.below(6)) {
+            (Some((_, px, py)), 0) => ((px ^ (1u64 << z.saturating_sub(1))) & m, py & m),
+            (Some((_, px, py)), 1) => (px & m, (py ^ (1u64 << z.saturating_sub(1))) & m),
+            (Some((_, px, py)), 2) => (py & m, px & m),
+            (Some((_, px, py)), 3) => ((px ^ (m & !(m >> 3))) & m, py & m),
+            (Some((_, px, py)), 4) => ((px ^ 1) & m, py & m),
+            _ => (rng.next() & m, rng.next() & m),
+        };
+        let id = util::tile_id(z, x, y);
+        let want = ref_tile_id(z, x, y);
+        if id != want {
+            return Err(format!("call {k} of a sequence: tile_id({z},{x},{y}) = {id}, the specification says {want} (previous call: {prev:?})"));
+        }
+        prev = Some((z, x, y));
+        match rng.below(5) {
+            0 => {
+                // outside the domain: zoom >= 32, or coordinates beyond the grid; the answer is not judged
+                let zz = 32 + rng.below(40) as u8;
+                let _ = std::panic::catch_unwind(|| util::tile_id(zz, x, y));
+            }
+            1 => {
+                let _ = std::panic::catch_unwind(|| util::tile_id(z, x | (1u64 << 40) << z.min(20), y));
+            }
+            _ => {}
+        }
+        let probe = match rng.below(6) {
+            0 => BASE32 + rng.spread(40),
+            1 => u64::MAX - rng.below(1000),
+            2 => id,
+            3 => ref_tile_id(31, (1 << 31) - 1, 0).wrapping_add(rng.below(3)),
+            4 => BASE32 - 1 - rng.below(3),
+            _ => rng.spread(63),
+        };
+        chk_zxy_id(probe).map_err(|e| format!("call {k} of a sequence (after tile_id({z},{x},{y})): {e}"))?;
+    }
+    Ok(())
+}
 fn chk_zxy_id(id: u64) -> Result<(), String> {
     match util::zxy(id) {
         Ok((z, x, y)) => {
@@ -242,6 +292,11 @@ pub fn gen_c07(rng: &mut Rng, quick: bool, st: &mut Stats) -> Vec<String> {
         c.push(format!("zxy {id:x}"));
         c.push(format!("chk_zxy_id {id:x}"));
     }
+    // sequences of conversions on one thread (memoisation must not show)
+    for _ in 0..(if quick { 40 } else { 400 }) {
+        c.push(format!("chk_hseq {:x} {:x}", rng.next(), 300));
+    }
+    st.bump("conversion_sequences");
     // exhaustive direct oracle
     c.push(format!("chk_hilbert_exhaustive {:x}", if quick { 10 } else { 12 }));
     // lookups outside the grid
@@ -871,6 +926,10 @@ pub fn run_chk(toks: &[&str]) -> Option<String> {
         ["chk_zxy_id", id] => {
             let id = unhex_u64(id);
             guard_chk(|| chk_zxy_id(id))
+        }
+        ["chk_hseq", seed, len] => {
+            let (seed, len) = (unhex_u64(seed), unhex_u64(len) as usize);
+            guard_chk(|| chk_hseq(seed, len))
         }
         ["chk_lookup_outside", mode, z, x, y] => {
             let (z, x, y) = (unhex_u64(z) as u8, unhex_u64(x), unhex_u64(y));
